@@ -28,6 +28,8 @@ def leaf_producers(f, operand, depth=12, extra_transparent=()):
                 elif isinstance(e, list) and e[0] == "f":
                     names.append(str(e[2] or e[1]))
             out.add("place:" + ".".join(names))
+            if 1 <= l <= f.nargs:
+                out.add("param:%d" % l)
             continue      # a pattern binding / field read: the value is that part of the scrutinee
         if (l, len(proj)) in seen:
             continue
